@@ -1214,8 +1214,9 @@ struct ssl
     tlsExtension_t *userExt; /* User provided extensions from session options.
                                 Stored here for reuse in renegotiations and in
                                 responses to TLS 1.3 HRRs. */
-# if defined(USE_CLIENT_SIDE_SSL) && defined(ENABLE_SECURE_REHANDSHAKES)
-    psCipher16_t *tlsClientCipherSuites;
+# if defined(USE_CLIENT_SIDE_SSL)
+    psCipher16_t *tlsClientCipherSuites; /* Suites listed in our ClientHello
+                                            (NULL: every enabled suite) */
     uint8_t tlsClientCipherSuitesLen;
 # endif
 # ifdef USE_SERVER_SIDE_SSL
